@@ -12,6 +12,9 @@
 // See the License for the specific language governing permissions and
 // limitations under the License.
 
+#[cfg(kani)]
+use crate::verif_shim::HashMap;
+#[cfg(not(kani))]
 use std::collections::HashMap;
 
 use swimos_model::Text;
@@ -72,3 +75,7 @@ mod tests {
         assert_eq!(registry.name_for(id), Some("lane"));
     }
 }
+
+#[cfg(kani)]
+#[path = "/verif/kani/swimos_runtime/registry.rs"]
+pub(crate) mod verif_kani;
